@@ -9,13 +9,23 @@ import (
 
 // cmdDump prints the SSA of a function and of the static callees one level down (debugging aid).
 func cmdDump(args []string) {
-	prog, _ := loadAll("/repo", "/verif/prelude", "verif")
+	tags := "verif"
+	if t := os.Getenv("GOVC_TAGS"); t != "" {
+		tags = t
+	}
+	prog, _ := loadAll("/repo", "/verif/prelude", tags)
 	f, ok := prog.ByKey[args[0]]
 	if !ok {
 		fmt.Println("no such function")
 		return
 	}
 	f.WriteTo(os.Stdout)
+	x := &Exec{prog: prog}
+	fr := &Frame{fn: f, loops: map[*ssa.BasicBlock]*loopInfo{}}
+	x.findLoops(fr)
+	for h, li := range fr.loops {
+		fmt.Printf("# loop %d: header block %d at %s\n", li.ordinal, h.Index, prog.Fset.Position(blockPos(h)))
+	}
 	for _, b := range f.Blocks {
 		for _, in := range b.Instrs {
 			if c, ok := in.(ssa.CallInstruction); ok {
